@@ -286,7 +286,7 @@ func c20BytesCase(t *testing.T, out *vfOut, r *vfRand, dir, kind string, lines [
 			default:
 				cls["seek-code-"+strconv.FormatInt(code, 10)] = true
 				if code != want[rank] {
-					mon.fail("seek-absent-class", "seek of absent stamp (rank %d): class %d, want %d (%v)", rank, code, want[rank], serr)
+					mon.fail("seek-absent-class", "seek of absent stamp %d (rank %d; first stored stamp %d): class %d, want %d (%v)", ts, rank, c20FirstStamp(lines), code, want[rank], serr)
 				}
 			}
 		}
